@@ -368,7 +368,7 @@ def check_alpha(P: C.Part, c: Dict[str, Any], nfreq: int = 192, impulse_max: int
         d = np.abs(np.asarray(got, dtype=float) - np.asarray(exp, dtype=float))
         j = int(np.argmax(d / scale))
         if not d[j] <= 16 * U * scale[j]:
-            _viol(P, f"_calc_filter_coeffs(fs={fs}, f_min={t_lo[j]!r}, f_max={t_hi[j]!r}): {nm} = {float(np.asarray(got)[j])!r}, bilinear design gives {float(exp[j])!r}",
+            _viol(P, f"_calc_filter_coeffs(fs={fs}, f_min={float(t_lo[j])!r}, f_max={float(t_hi[j])!r}): {nm} = {float(np.asarray(got)[j])!r}, bilinear design gives {float(exp[j])!r}",
                   {"sub": "coeff-formula", "coef": nm}, dict(rep, f_lo=float(t_lo[j]), f_hi=float(t_hi[j])))
             return
 
@@ -389,8 +389,8 @@ def check_alpha(P: C.Part, c: Dict[str, Any], nfreq: int = 192, impulse_max: int
         rel = np.abs(got - exp) / exp
         j = int(np.argmax(rel - cnd))
         if not rel[j] <= cnd[j] + logerr:
-            _viol(P, f"alpha_noise(fs={fs}, fmin={fmin_u}, fmax={fmax_u}, alpha={alpha}): section {j} of {n} has {nm} = {got[j]!r}, "
-                     f"log-equispaced placement with alpha/4 offset gives {exp[j]!r} (rel {rel[j]:.3g}, tol {cnd[j] + logerr:.3g})",
+            _viol(P, f"alpha_noise(fs={fs}, fmin={fmin_u}, fmax={fmax_u}, alpha={alpha}): section {j} of {n} has {nm} = {float(got[j])!r}, "
+                     f"log-equispaced placement with alpha/4 offset gives {float(exp[j])!r} (rel {rel[j]:.3g}, tol {cnd[j] + logerr:.3g})",
                   {"sub": "corner-placement", "which": nm}, rep)
             return
     P.cases += 1
@@ -414,8 +414,8 @@ def check_alpha(P: C.Part, c: Dict[str, Any], nfreq: int = 192, impulse_max: int
     P.cases += len(fprobe)
     if bad.any():
         j = int(np.argmax(np.abs(H2 - cf) / cf - tolr))
-        _viol(P, f"alpha_noise(fs={fs}, fmin={fmin_u}, fmax={fmax_u}, alpha={alpha}): |H|^2 of the real cascade at f={fprobe[j]!r} is {H2[j]!r}, "
-                 f"closed form prod (Om^2+wmax_i^2)/(Om^2+wmin_i^2) gives {cf[j]!r} (rel tol {tolr[j]:.3g})",
+        _viol(P, f"alpha_noise(fs={fs}, fmin={fmin_u}, fmax={fmax_u}, alpha={alpha}): |H|^2 of the real cascade at f={float(fprobe[j])!r} is {float(H2[j])!r}, "
+                 f"closed form prod (Om^2+wmax_i^2)/(Om^2+wmin_i^2) gives {float(cf[j])!r} (rel tol {tolr[j]:.3g})",
               {"sub": "cascade-closed-form"}, dict(rep, f=float(fprobe[j])))
         return
     sc2 = float(g._scaling) ** 2
@@ -455,7 +455,7 @@ def check_alpha(P: C.Part, c: Dict[str, Any], nfreq: int = 192, impulse_max: int
         if bad.any():
             j = int(np.argmax(np.abs(dev) - tol))
             at1 = bool(fp[j] == 1.0)
-            _viol(P, f"alpha_noise(fs={fs}, fmin={fmin_u}, fmax={fmax_u}, alpha={alpha}): two-sided density at f={fp[j]!r} Hz is {S[j]!r}, f^-alpha = {fp[j] ** (-alpha)!r}: "
+            _viol(P, f"alpha_noise(fs={fs}, fmin={fmin_u}, fmax={fmax_u}, alpha={alpha}): two-sided density at f={float(fp[j])!r} Hz is {float(S[j])!r}, f^-alpha = {float(fp[j] ** (-alpha))!r}: "
                      f"{dev[j]:+.3f} dB (allowed {tol[j]:.3f} dB = 1.5 x worst of the reference tree; {'interior' if interior[j] else 'near a corner'}; "
                      f"effective corners {ge_lo!r}..{ge_hi!r}, {n} sections)",
                   {"sub": "density-at-1Hz" if at1 else "ripple", "interior": bool(interior[j])}, dict(rep, f=float(fp[j])))
@@ -483,8 +483,8 @@ def check_alpha(P: C.Part, c: Dict[str, Any], nfreq: int = 192, impulse_max: int
             P.hit("alpha:impulse-run")
             if len(h) != M or not np.all(np.abs(got - exp_h) <= tol_h):
                 j = int(np.argmax(np.abs(got - exp_h))) if len(h) == M else 0
-                _viol(P, f"alpha_noise(fs={fs}, fmin={fmin_u}, fmax={fmax_u}, alpha={alpha}).get_series on a unit impulse: transfer function at f={ft[j]!r} is "
-                         f"{got[j]!r}, the stored coefficients and scaling give {exp_h[j]!r} (tol {tol_h:.3g})",
+                _viol(P, f"alpha_noise(fs={fs}, fmin={fmin_u}, fmax={fmax_u}, alpha={alpha}).get_series on a unit impulse: transfer function at f={float(ft[j])!r} is "
+                         f"{complex(got[j])!r}, the stored coefficients and scaling give {complex(exp_h[j])!r} (tol {tol_h:.3g})",
                       {"sub": "impulse-response"}, dict(rep, f=float(ft[j])))
 
 
@@ -532,7 +532,7 @@ def check_fftnoise(P: C.Part, c: Dict[str, Any]) -> None:
     if not np.all(d <= tol):
         k = int(np.argmax(d))
         where = "dc" if k == 0 else "nyquist" if (N % 2 == 0 and k == N // 2) else "positive" if k <= Np else "mirror"
-        _viol(P, f"fftnoise N={N}: |DFT(x)[{k}]| = {abs(X[k])!r}, prescribed magnitude {mag[k]!r} ({where} bin; tol {tol:.3g})",
+        _viol(P, f"fftnoise N={N}: |DFT(x)[{k}]| = {float(abs(X[k]))!r}, prescribed magnitude {float(mag[k])!r} ({where} bin; tol {tol:.3g})",
               {"sub": "fftnoise-magnitude", "bin": where, "parity": N % 2}, rep)
         return
 
@@ -593,13 +593,13 @@ def check_band(P: C.Part, c: Dict[str, Any]) -> None:
     bad_in = decided & inside & ~(np.abs(A - 1.0) <= tol)
     if bad_out.any():
         k = int(np.argmax(np.where(bad_out, A, -1)))
-        _viol(P, f"band_limited_noise({lo!r}, {hi!r}, samples={N}, samplerate={fs!r}): bin {k} at |f| = {fk[k]!r} Hz is OUTSIDE the band but has |DFT| = {A[k]!r} (tol {tol:.3g})",
+        _viol(P, f"band_limited_noise({lo!r}, {hi!r}, samples={N}, samplerate={fs!r}): bin {k} at |f| = {float(fk[k])!r} Hz is OUTSIDE the band but has |DFT| = {float(A[k])!r} (tol {tol:.3g})",
               {"sub": "band-leak", "nyquist": bool(N % 2 == 0 and k == N // 2), "dc": k == 0}, rep)
     if bad_in.any():
         k = int(np.argmax(np.where(bad_in, np.abs(A - 1.0), -1)))
         on_edge = bool(near[k])
-        _viol(P, f"band_limited_noise({lo!r}, {hi!r}, samples={N}, samplerate={fs!r}): bin {k} at |f| = {fk[k]!r} Hz is INSIDE the band"
-                 f"{' (on an inclusive edge)' if on_edge else ''} but has |DFT| = {A[k]!r}, expected 1 (tol {tol:.3g})",
+        _viol(P, f"band_limited_noise({lo!r}, {hi!r}, samples={N}, samplerate={fs!r}): bin {k} at |f| = {float(fk[k])!r} Hz is INSIDE the band"
+                 f"{' (on an inclusive edge)' if on_edge else ''} but has |DFT| = {float(A[k])!r}, expected 1 (tol {tol:.3g})",
               {"sub": "band-missing", "on_edge": on_edge, "nyquist": bool(N % 2 == 0 and k == N // 2), "dc": k == 0}, rep)
 
 
